@@ -22,6 +22,7 @@ def run(only=None):
         'GenConsts.v': lambda: py_consts2coq.generate(REPO),
         'GenEffects.v': lambda: py_effects2coq.generate('/repo')[0],
         'GenLedger.v': lambda: py_ledger2coq.generate('/repo'),
+        'GenBand.v': lambda: py_ledger2coq.generate_band('/repo'),
     }
     res = {}
     os.makedirs(GEN, exist_ok=True)
